@@ -491,6 +491,40 @@ def msgno_argument_sites(db, rep):
     return out
 
 
+def uidl_name_sites(db, rep):
+    """printfn(): the unique id shown for a message is its file name without the directory, cut at the FIRST colon - the part
+    that stays the same when QUIT renames new/x to cur/x:2, - for names with none, one and several colons"""
+    prog = db.program('qmail-pop3d')
+    fn = prog.fn('printfn', 'qmail-pop3d.c')
+    bad = None
+    names = [b'new/1000.2.host', b'cur/1000.2.host:2,', b'cur/1000.2.host:2,S', b'new/1000.2.fe80::1', b'cur/1000.2.fe80::1:2,', b'new/x:', b'cur/:2,']
+    for name in names:
+        outb = []
+
+        class PH(libtab.SAConc, libtab.Conc):
+            def _put(self_, E, x, args):
+                p, n = libtab._one(args[1]), libtab._one(args[2])
+                outb.append(self_.mem(E, p, n) if isinstance(n, int) and 0 <= n < 200 else None)
+                return [Outcome(ret=fs(0))]
+            prim_substdio_put = prim_substdio_bput = _put
+
+            def _puts(self_, E, x, args):
+                outb.append(self_.cstring(E, libtab._one(args[1])))
+                return [Outcome(ret=fs(0))]
+            prim_substdio_puts = prim_substdio_bputs = _puts
+        H = PH('printfn')
+        st = {0: fs(('&', 'FN[0]'))}
+        st.update(libtab.conc_string_cells('FN', name))
+        libtab._run_conc(db, rep, prog, fn, st, 'printfn', H)
+        if len(H.ends) != 1:
+            raise AnalysisBroken('printfn: %d ends for %r' % (len(H.ends), name))
+        got = None if any(o is None for o in outb) else b''.join(outb)
+        want = name[4:].split(b':')[0]
+        if got != want and bad is None:
+            bad = 'file %r is shown as %r; documented: %r (the name up to the first colon: the same before and after the message moves to cur/ with an info suffix)' % (name.decode(), got, want)
+    return {'uidl:unique-id=file-name-up-to-the-first-colon': (bad is None, 'qmail-pop3d.c:printfn', bad or '%d file names' % len(names), [])}
+
+
 def run(ctx):
     db, rep = ctx.db, ctx.report
     prog = db.program('qmail-pop3d')
@@ -653,6 +687,10 @@ def run(ctx):
         for inst_, v_ in sorted(libtab.commands_sites(db, rep, *tab_).items()):
             r6.check(v_[0], tab_[0] + ':' + inst_, v_[1], v_[2], v_[3])
     r6.expect_min(4)
+    r7 = rep.rule('C19.7-unique-ids', 'R-TABLE', 'UIDL/LIST name a message by its file name cut at the first colon, so the listed unique id corresponds to the file and survives the move from new/ to cur/')
+    for inst_, v_ in sorted(uidl_name_sites(db, rep).items()):
+        r7.check(v_[0], inst_, v_[1], v_[2], v_[3])
+    r7.expect_min(1)
     r5 = rep.rule('C19.5-popup', 'R-TABLE', 'qmail-popup: commands user, pass, apop, quit, noop + refusal default; PASS needs a preceding USER; the checkpassword protocol is user NUL, password NUL, <unique+host> NUL on descriptor 3')
     pu = db.unit('qmail-popup.c')
     tab = pu.globals.get('pop3commands')
